@@ -120,9 +120,9 @@ def cfg(rng, tier, pmax=None):
     p = rng.choice(PRECS_QUICK)
     if tier != "quick":
         r = rng.random()          # the large precisions are expensive on the implementation side: fewer of them
-        if r < 0.06:
+        if r < 0.04:
             p = 1000
-        elif r < 0.075 and not (pmax and pmax < 3000):
+        elif r < 0.046 and not (pmax and pmax < 3000):
             p = 3000
     return rng.choice(BASES), p, rng.choice(MODES)
 
@@ -185,7 +185,7 @@ def ln_inputs(rng, B, p, op):
             if c < 0.7:
                 return 1, rng.choice([1, 2, 5, -1, -2, -5, 100, -100, 1000, -1000])
             return round_frac(Fraction(1, rng.randrange(2, 60)), B, p)
-        return float_with_top(rng, B, p, rng.choice([-1000, -300, -100, -30, -10, 10, 30, 100, 300, 1000] + ([-5000, 5000] if BIG_EXP else [])))
+        return float_with_top(rng, B, p, rng.choice([-1000, -300, -100, -30, -10, 10, 30, 100, 300, 1000] + ([-5000, 5000] if BIG_EXP and B <= 10 else [])))
     # ln_1p
     sgn = rng.choice([1, -1])
     if r < 0.30:        # tiny
@@ -349,7 +349,7 @@ def adversarial_cases(rng, tier, n):
     moves the answer by a whole ulp) or next to a midpoint (nearest modes)"""
     for _ in range(n):
         B = rng.choice(BASES)
-        p = rng.choice([3, 10, 53, 100] if tier == "quick" else [3, 10, 53, 100, 100, 1000])
+        p = rng.choice([3, 10, 53, 100] if tier == "quick" else [3, 10, 53, 100, 3, 10, 53, 100, 100, 1000])
         m = rng.choice(DIRECTED) if rng.random() < 0.8 else rng.choice("EH")
         dd = 2 * dec_digits(B, p) + 40
         kind = rng.choice(["exp", "exp", "exp_m1", "ln", "ln_1p", "cexp", "cln"])
@@ -429,27 +429,40 @@ def _bindir():
         tdir += "-alt-" + hashlib.sha1(core.REPO.encode()).hexdigest()[:10]
     return os.path.join(tdir, "debug")
 
+def _heavy(op, args):
+    """cases that take seconds on the implementation side (large precision / huge exponents)"""
+    for a in args:
+        if a.startswith("f:"):
+            t = a.split(":")
+            if int(t[4]) >= 1000 or abs(int(t[3])) >= 2000 or len(t[2]) > 800:
+                return True
+        elif a.startswith("d:") and int(a[2:]) >= 1000:
+            return True
+    return False
+
 def observe(raw, jobs=JOBS, per_case_timeout=60):
-    """run the harness alone over raw (op, args) cases; returns the payload printed for each"""
+    """run the harness alone over raw (op, args) cases; returns the payload printed for each.
+    core.run_side gives ONE time budget to a whole case file, so the slow cases are put into small files
+    of their own (a slow file must not be mistaken for a hang)."""
     exe = os.path.join(_bindir(), "exec_" + GROUP)
     wd = tempfile.mkdtemp(prefix="verif-C11-pass1-")
     try:
-        shards = [[] for _ in range(jobs)]
-        for i, (op, args) in enumerate(raw):
-            shards[i % jobs].append((i, op, args))
+        heavy = [(i, op, args) for i, (op, args) in enumerate(raw) if _heavy(op, args)]
+        light = [(i, op, args) for i, (op, args) in enumerate(raw) if not _heavy(op, args)]
+        chunks = [heavy[k:k + 4] for k in range(0, len(heavy), 4)]
+        per = max(50, (len(light) + jobs - 1) // jobs)
+        chunks += [light[k:k + per] for k in range(0, len(light), per)]
 
         def do(k):
-            if not shards[k]:
-                return {}
             path = os.path.join(wd, "pass1.%d.txt" % k)
             with open(path, "w") as f:
                 f.write("#W 64\n")
-                for i, op, args in shards[k]:
+                for i, op, args in chunks[k]:
                     f.write("%d %s %s\n" % (i, op, " ".join(args)))
-            return core.run_side(exe, path, len(shards[k]), per_case_timeout, "impl")
+            return core.run_side(exe, path, len(chunks[k]), per_case_timeout, "impl")
         res = {}
         with ThreadPoolExecutor(max_workers=jobs) as ex:
-            for r in ex.map(do, range(jobs)):
+            for r in ex.map(do, range(len(chunks))):
                 res.update(r)
         return [res.get(i, "missing") for i in range(len(raw))]
     finally:
